@@ -1,45 +1,140 @@
-"""U16 quoting: the character predicates `quote` consults and the double-quote writer (brush-core/src/escape.rs)."""
+"""U16 quoting (brush-core/src/escape.rs): `quote` and the four writers it selects from, against a reader of one shell word
+written from POSIX 2.2/2.3 and the bash manual's ANSI-C quoting section: for every value without NUL and every quoting mode the
+text `quote` returns reads back as exactly that value."""
+import re
 from vx.unit import Unit
-from vx.extract import C
+from vx.extract import C, ExtractError
 
 PROPS = ['C13', 'C01']
 HEADER = 'use vstd::prelude::*;\nuse vstd::std_specs::iter::IteratorSpec;\nverus! {\n'
 FOOTER = '\n} // verus!\nfn main() {}\n'
+PREDS = ['needs_escaping', 'needs_escaping_at_start', 'needs_ansi_c_quoting']
+TWIN_SUBST = [(r'\b(\w+)\.is_ascii_control\(\)', r'char_is_ascii_control_spec(\1)'), (r'\b(\w+)\.is_control\(\)', r'char_is_control_spec(\1)')]
+STRLITS = ['\\\\a', '\\\\b', '\\\\E', '\\\\f', '\\\\n', '\\\\r', '\\\\t', '\\\\v', '\\\\\\\\', "\\\\'"]
+
+
+def twinify(expr):
+    return re.sub(r'\b(%s)\(' % '|'.join(PREDS), r'\1__twin(', expr)
 
 
 def build(repo, findings):
-    u = Unit('U16', 'quoting predicates and double-quote writer vs a POSIX reader', repo, ['C13'], safety_props=['C01', 'C13'])
+    u = Unit('U16', 'quote(): every style it can pick reads back as the value (POSIX/bash word reader)', repo, ['C13'], safety_props=['C01', 'C13'])
     src = u.source('brush-core/src/escape.rs')
+    # precondition of `quote` below: nobody asks to leave newlines out of ANSI-C quoting (both constructors use Default for it)
+    for rel in ('brush-core/src/escape.rs',):
+        if re.search(r'avoid_ansi_c_quoting_newline\s*:\s*true', u.source(rel).text):
+            raise ExtractError('a QuoteOptions constructor sets avoid_ansi_c_quoting_newline: true — the contract of quote() assumes it is never set')
     u.raw(HEADER)
     u.prelude('quoting/spec.rs')
-    f = src.item(r'^const fn needs_escaping\(', 'needs_escaping').r1().r11()
-    f.sig(ret='r', ensures=[C('C13 special-anywhere-table', 'r == needs_escaping_spec(c)')])
-    u.add(f)
-    if src.has(r'^const fn needs_escaping_at_start\('):
-        f = src.item(r'^const fn needs_escaping_at_start\(', 'needs_escaping_at_start').r1().r11()
-        f.sig(ret='r', ensures=[C('C13 special-at-start-table', 'r == needs_escaping_at_start_spec(c)')])
+    u.add(src.item(r'^pub enum QuoteMode ', 'QuoteMode').r1(keep_derive=()).resub(r'^\s*#\[default\]\n', '', 'R1', 'derive helper attribute dropped', count=None))
+    u.add(src.item(r'^pub\(crate\) struct QuoteOptions ', 'QuoteOptions').r1(keep_derive=()))
+    # ---- the three character predicates: exec fn == its spec twin (same body text)
+    for name in PREDS:
+        hdr = r'^(?:const )?fn %s\(' % name
+        if not src.has(hdr):
+            if name == 'needs_escaping_at_start':
+                # C13 finding fixed in /repo 1842231: without a predicate for a leading '#' / '~' the cover lemma cannot hold
+                u.raw('pub open spec fn needs_escaping_at_start__twin(c: char) -> bool { false }\n')
+                continue
+            raise ExtractError('anchor lost: %s' % name)
+        f = src.item(hdr, name).r1().r11()
+        u.raw(f.twin(name, TWIN_SUBST))
+        f.sig(ret='r', ensures=[C('aux exec-predicate-is-its-spec-twin', 'r == %s__twin(c)' % name)])
         u.add(f)
-    else:
-        # the property needs *some* predicate flagging a leading '#' / '~' (C13 finding fixed in /repo 1842231); without one the
-        # obligation below cannot hold — reported as a violation, not as a lost anchor
-        u.raw('''pub proof fn leading_hash_and_tilde_are_flagged()
-    ensures
-        //@ escape.rs:needs_escaping_at_start:exists | C13 special-at-start-table (no predicate flags a leading # or ~)
-        false,
-{}
-''')
-    f = src.item(r'^const fn needs_ansi_c_quoting\(', 'needs_ansi_c_quoting').r1().r11()
-    f.sig(ret='r', ensures=[C('C13 control-chars-table', 'r == ansi_c_spec(c)')])
-    u.add(f)
+    # ---- double_quote
     f = src.item(r'^fn double_quote\(', 'double_quote').r1().r11()
-    f.sig(ret='result', ensures=[C('C13 double-quote-output', "result@ == seq!['\"'] + dq_body(s@) + seq!['\"']")])
+    f.sig(ret='result', ensures=[C('C13 double-quote-output', "result@ == seq!['\"'] + flat_r(s@, dq_piece()) + seq!['\"']")])
     f.loop(0, iter_name='it', invariant=[
         C('aux', 'it.history@ + it.iter.remaining() == s@'),
-        C('C13 double-quote-prefix', "result@ == seq!['\"'] + dq_body(it.history@)"),
+        C('C13 double-quote-prefix', "result@ == seq!['\"'] + flat_r(it.history@, dq_piece())"),
     ], body_first='proof { assert((it.history@.push(c)).drop_last() =~= it.history@); }')
+    u.add(f)
+    # ---- ansi_c_quote
+    f = src.item(r'^fn ansi_c_quote\(', 'ansi_c_quote').r1().r11()
+    f.resub(r'std::format!\("\\\\\{:03o\}", (\w+) as u8\)', r'vx_fmt_backslash_octal3(\1 as u8)', 'R8', 'format!("\\\\{:03o}", c as u8) -> stub returning backslash + three octal digits of the byte', count=None)
+    f.sig(ret='result', ensures=[C('C13 ansi-c-output', "result@ == seq!['$', '\\''] + flat_r(s@, ansi_piece(flag_fn())) + seq!['\\'']")])
+    lits = ' '.join('reveal_strlit("%s");' % l for l in STRLITS + ["$'"])
+    f.at_body_start('ansi_c_quote', 'proof { %s assert("$\'"@ =~= seq![\'$\', \'\\\'\']); }' % lits)
+    f.loop(0, iter_name='it', invariant=[
+        C('aux', 'it.history@ + it.iter.remaining() == s@'),
+        C('C13 ansi-c-prefix', "result@ == seq!['$', '\\''] + flat_r(it.history@, ansi_piece(flag_fn()))"),
+    ], body_first='''proof { assert((it.history@.push(c)).drop_last() =~= it.history@);
+    %s
+    assert("\\\\a"@ =~= seq!['\\\\', 'a']); assert("\\\\b"@ =~= seq!['\\\\', 'b']); assert("\\\\E"@ =~= seq!['\\\\', 'E']); assert("\\\\f"@ =~= seq!['\\\\', 'f']);
+    assert("\\\\n"@ =~= seq!['\\\\', 'n']); assert("\\\\r"@ =~= seq!['\\\\', 'r']); assert("\\\\t"@ =~= seq!['\\\\', 't']); assert("\\\\v"@ =~= seq!['\\\\', 'v']);
+    assert("\\\\\\\\"@ =~= seq!['\\\\', '\\\\']); assert("\\\\'"@ =~= seq!['\\\\', '\\'']);
+}''' % lits)
+    u.add(f)
+    # ---- backslash_escape
+    fn = 'backslash_escape'
+    f = src.item(r'^fn backslash_escape\(', fn).r1().r11().r17_cow()
+    f.resub(r'(\w+)\.chars\(\)\.any\((\w+)\)', r'str_any(\1, \2)', 'R14', 's.chars().any(pred) -> str_any(s, pred) stub', count=None)
+    f.resub(r'(\w+)\.starts_with\((needs_\w+)\)', r'str_first_is(\1, \2)', 'R14', 's.starts_with(pred) -> str_first_is(s, pred) stub', count=None)
+    f.r12(fn, 0)
+    f.sig(fn, ret='res', ensures=[
+        C('C13 empty-value-is-two-quotes', "s@.len() == 0 ==> res@ == seq!['\\'', '\\'']"),
+        C('C13 backslash-output', 's@.len() > 0 ==> res@ == flat_r(s@, bs_piece(esc_fn()))'),
+    ])
+    f.at_body_start(fn, 'proof { reveal_strlit("\'\'"); assert("\'\'"@ =~= seq![\'\\\'\', \'\\\'\']); axiom_str_chars_fit_usize(s);\n    if (forall|i: int| 0 <= i < s@.len() ==> !needs_escaping__twin(#[trigger] s@[i])) && (s@.len() == 0 || !needs_escaping_at_start__twin(s@[0])) { lemma_nothing_escaped(s@); } }')
+    f.loop(0, fn_name=fn, iter_name='it', invariant=[
+        C('aux', 'it.history@ + it.iter.remaining() == s@ && __n == it.history@.len() && s@.len() <= isize::MAX'),
+        C('C13 backslash-prefix', 'output@ == flat_r(it.history@, bs_piece(esc_fn()))'),
+    ], body_first='proof { assert((it.history@.push(c)).drop_last() =~= it.history@); assert(it.history@.len() < s@.len()) by { assert((it.history@ + it.iter.remaining()).len() == s@.len()); assert(it.iter.remaining().len() > 0); } }')
+    u.add(f)
+    # ---- single_quote
+    fn = 'single_quote'
+    f = src.item(r'^fn single_quote\(', fn).r1().r11().r17_cow()
+    f.resub(r"^(\s*)for (\w+) in (\w+)\.split\('\\''\) \{", r"\1let __parts = str_split_char(\3, '\\'');\n\1for \2 in __parts.iter() {", 'R14', "s.split('\\'') -> str_split_char(s, '\\'') stub returning the parts as a Vec", count=None)
+    f.sig(fn, ret='res', ensures=[
+        C('C13 empty-value-is-two-quotes', "s@.len() == 0 ==> res@ == seq!['\\'', '\\'']"),
+        C('C13 single-quote-output', "s@.len() > 0 ==> res@ == flat_r(split_char(s@, '\\''), sq_piece())"),
+    ])
+    f.at_body_start(fn, 'proof { reveal_strlit("\'\'"); assert("\'\'"@ =~= seq![\'\\\'\', \'\\\'\']); }')
+    PS = "split_char(s@, '\\'')"
+    f.loop(0, fn_name=fn, iter_name='it', invariant=[
+        C('aux', 'it.index@ + it.iter.remaining().len() == __parts@.len()'),
+        C('aux', 'forall|i: int| 0 <= i < it.iter.remaining().len() ==> *(#[trigger] it.iter.remaining()[i]) == __parts@[it.index@ + i]'),
+        C('aux', '__parts@.len() == %s.len() && forall|i: int| 0 <= i < __parts@.len() ==> (#[trigger] __parts@[i])@ == %s[i]' % (PS, PS)),
+        C('C13 first-flag-tracks-position', 'first == (it.index@ == 0)'),
+        C('C13 single-quote-prefix', 'result@ == flat_r(%s.take(it.index@ as int), sq_piece())' % PS),
+    ], body_first='''proof {
+    let ps = %s;
+    let k = it.index@ as int;
+    assert(*part == __parts@[k]);
+    assert(ps.take(k + 1).drop_last() =~= ps.take(k));
+    assert(ps.take(k + 1).last() == ps[k]);
+}''' % PS)
+    f.after_loop(fn, 0, "proof { assert(%s.take(__parts@.len() as int) =~= %s); }" % (PS, PS))
+    u.add(f)
+    # ---- quote
+    fn = 'quote'
+    f = src.item(r'^pub\(crate\) fn quote<', fn).r1().r11().r17_cow()
+    m = re.search(r'\.contains\(\|(\w+)\| \{\n(.*?)\n\s*\}\)', f.text, re.S)
+    f.resub(r'(\w+)\.contains\(', r'str_any(\1, ', 'R14', 's.contains(pred) -> str_any(s, pred) stub', count=None)
+    f.resub(r'(\w+)\.starts_with\((needs_\w+)\)', r'str_first_is(\1, \2)', 'R14', 's.starts_with(pred) -> str_first_is(s, pred) stub', count=None)
+    f.sig(fn, ret='res', requires=[
+        C('aux newline-exemption-never-requested', '!options.avoid_ansi_c_quoting_newline'),
+        C('aux value-has-no-NUL', 'no_nul(s@)'),
+    ], ensures=[
+        C('C13 quoted-text-reads-back-as-the-value', 'reads_as(res@, s@)'),
+    ])
+    if m:
+        # the closure's contract is its own body, with the predicates replaced by their twins (mechanical)
+        f.closure(r'str_any\(\w+, \|', 'char', 'b: bool', 'b == (%s)' % twinify(' '.join(m.group(2).split())), fn_name=fn)
+    f.at_body_start(fn, '''proof {
+    lemma_predicates_cover(s@);
+    lemma_empty_word();
+    lemma_dq_word(s@);
+    if s@.len() > 0 { lemma_sq_word(s@); }
+    if ansi_flag_ok(flag_fn()) { lemma_ansi_word(s@, flag_fn()); }
+    if s@.len() > 0 && bs_ok(s@, esc_fn(), 0) { lemma_bs_word(s@); }
+    if bs_ok(s@, |i: int, c: char| false, 0) { lemma_raw_read(s@); }
+}''')
     u.add(f)
     u.raw(FOOTER)
     u.assume('assume_specification', 'String::with_capacity(n) is empty; char::is_ascii_control is c <= 0x1f || c == 0x7f (std documented behaviour)')
-    u.assume('stub', 'backslash_escape, single_quote, ansi_c_quote and quote (style selection, use of the three predicates) use Iterator::any / str::split / format! / str::contains(closure) and are NOT verified; the reader is a spec function written from POSIX 2.2, not brush\'s or bash\'s parser')
+    u.assume('external_body', 'R14 stubs str_any / str_first_is (the std predicate searches: true iff the predicate returned true for some / the first char), str_split_char (std str::split on a char), vx_fmt_backslash_octal3 (format!("\\\\{:03o}", byte)), vx_owned (String from &str/String with the same chars)')
+    u.assume('axiom', 'a string has at most isize::MAX chars (needed for the R12 counter that replaces enumerate())')
+    u.assume('stub', 'force_quote / quote_if_needed (struct-update syntax with Default) and every caller that assembles declare -p / set / alias / trap -p / xtrace lines around quote() are NOT verified; printf %q with other arguments goes through uucore (third party); the reader is a spec function written from POSIX 2.2/2.3 and the bash manual, not brush\'s or bash\'s parser; history expansion is off')
     u.expected_min_fns = 8
     return u
